@@ -3,6 +3,7 @@ CONSTANTS
   KMax = 0
   MaxSteps = 0
   WithObs = FALSE
+  PurgeByKey = FALSE
   PurgeLast = FALSE
   Kinds = {}
 INIT Init
